@@ -117,6 +117,11 @@ class _FileProxy(object):
         self._h._world.sched.point('close')
         self._h.finish('close')
 
+    def __getattr__(self, name):
+        if name == '_h':
+            raise AttributeError(name)
+        return getattr(self._h._real, name)
+
     def __del__(self):
         try:
             self._h.finish('drop')
@@ -133,6 +138,10 @@ class _Namespace(object):
 
     def __getattr__(self, name):
         return getattr(self.__dict__['_real'], name)
+
+
+class BlockedForever(Exception):
+    pass
 
 
 class World(object):
@@ -219,6 +228,10 @@ class World(object):
                 if flags & real_fcntl.LOCK_NB:
                     raise
                 # blocking flock requested by the code under test: modelled as "enabled when free"
+                if self.tid() < 0:
+                    # the final single-threaded re-acquisition: nobody is left who could release
+                    raise BlockedForever('flock() on %s blocks although nobody else is running'
+                                         % os.path.basename(h.path))
                 self.sched.point('flock-blocked', enabled=lambda: not any(
                     (not o.closed) and o.locked and o.ino == h.ino and o is not h for o in self.handles))
                 continue
@@ -512,6 +525,10 @@ def fresh_attempt(world):
                 err = ('after all contenders finished a fresh lock attempt (%d of %d) failed; handles still open: %r'
                        % (len(locks) + 1, world.limit, open_handles))
                 break
+            except BlockedForever as e:
+                err = ('after all contenders finished a fresh lock attempt (%d of %d) blocks for ever: %s'
+                       % (len(locks) + 1, world.limit, e))
+                break
             locks.append(lk)
     finally:
         for lk in locks:
@@ -593,13 +610,30 @@ def exclusions():
 # (i) bounded-exhaustive: every schedule with <= k preemptions
 
 def dfs_configs(tier):
+    """(configuration, preemption bound) pairs; every schedule within the bound is executed.
+    Measured tree sizes (file-remove): 2x2: k=2 0.4k, k=3 2.4k, k=4 11k schedules; 1x1x1: k=2 3.3k, k=3 31k;
+    SemLock n>=2 multiplies by the randint draws."""
+    quick = tier == 'quick'
+
+    def cfg(kind, remove, n, cycles, perm=None, t=1):
+        return {'kind': kind, 'remove': remove, 'n': n, 'perm': perm, 'timeout_steps': t, 'cycles': cycles}
     out = []
-    k2, k3 = (3, 2) if tier == 'quick' else (5, 3)
-    for perm in (None, '644'):
-        for kind, remove, n in (('file', True, 1), ('file', False, 1), ('sem', False, 1), ('sem', False, 2)):
-            base = {'kind': kind, 'remove': remove, 'n': n, 'perm': perm, 'timeout_steps': 1}
-            out.append((dict(base, cycles=[2, 2]), k2 if not perm else k2 - 1))
-            out.append((dict(base, cycles=[1, 1, 1]), k3))
+    for kind, remove, n in (('file', True, 1), ('file', False, 1), ('sem', False, 1), ('sem', False, 2)):
+        big = kind == 'sem' and n > 1
+        main = kind == 'file' and remove
+        out.append((cfg(kind, remove, n, [2, 2]), (2 if big else 3) if quick else (4 if big else 5)))
+        out.append((cfg(kind, remove, n, [1, 1, 1]), 2 if quick else (4 if main else 3)))
+        if kind == 'file' or not quick:
+            # file_permissions adds the exists/chmod calls; SemLock shares that code path with FileLock
+            out.append((cfg(kind, remove, n, [2, 2], perm='644'), 2 if quick else 3))
+            out.append((cfg(kind, remove, n, [1, 1, 1], perm='644'), 2 if quick or not main else 3))
+    # longer polling (three attempts per lock call) for the release-by-remove style
+    out.append((cfg('file', True, 1, [2, 2], t=2), 2 if quick else 4))
+    if not quick:
+        out.append((cfg('file', True, 1, [1, 1, 1], t=2), 3))
+        out.append((cfg('sem', False, 3, [1, 1, 1]), 2))
+        out.append((cfg('file', True, 1, [1, 1, 1, 1]), 2))
+        out.append((cfg('file', True, 1, [2, 1, 1]), 2))
     return out
 
 
@@ -627,8 +661,8 @@ def dfs_shard(shard, nshards, seed, tier):
             stats.extra['dfs_schedules'] = stats.extra.get('dfs_schedules', 0) + n
             scope.append('%s perm=%s cycles=%r timeout=%d step: all schedules with <= %d preemptions'
                          % (variant_name(cfg), cfg['perm'], cfg['cycles'], cfg['timeout_steps'], bound))
-            stats.extra['dfs_schedules:%s/perm=%s/%s/k%d' % (variant_name(cfg), cfg['perm'],
-                                                             'x'.join(map(str, cfg['cycles'])), bound)] = n
+            stats.extra['dfs_schedules:%s/perm=%s/T%d/%s/k%d' % (variant_name(cfg), cfg['perm'], cfg['timeout_steps'],
+                                                                 'x'.join(map(str, cfg['cycles'])), bound)] = n
     finally:
         shutil.rmtree(lockdir, ignore_errors=True)
     if shard == 0:
@@ -668,7 +702,7 @@ def hyp_shard(shard, nshards, seed, tier):
     stats = core.Stats()
     excl = exclusions()
     lockdir = scratch_dir()
-    n = (24000 if tier == 'quick' else 600000) // nshards
+    n = (16000 if tier == 'quick' else 480000) // nshards
 
     def check(case, st_):
         res = run_case(case['cfg'], HypChooser(case['pairs'], case['data']), lockdir, excl)
